@@ -11,7 +11,7 @@ from .. import estimators as E, gen
 RULE = ('per estimator: model descriptor x pool of 2-8 query points (coordinates in [-1e3,1e3], or '
         'integral) x index pairs into the pool (repeats allowed) x representation {ndarray, nested list, '
         'int64/int32/int16/uint8/uint16/uint32 (integral pools), Fortran order, non-contiguous slice, single-pair batch, indices via '
-        'array preprocessor}. Views compared: pair_distance, get_metric (plain, squared), '
+        'array preprocessor}; near-duplicate pairs (relative 2^-17..2^-45 apart); get_metric called with mixed dtypes. Views compared: pair_distance, get_metric (plain, squared), '
         '||transform(u)-transform(v)||, sqrt((u-v)^T M (u-v)), score_pairs, and a long-double reference '
         '||L(u-v)||. Non-trivial = u != v and non-zero distance; distinct by (model, pool, pair).')
 ASSUMPTIONS = ['absolute slack 1e-150 on distances (1e-300 on squared distances): squares of coordinates below ~1e-154 underflow',
@@ -37,7 +37,7 @@ def case_strategy(draw, name):
     pool = [[draw(gen.moderate_float()) for _ in range(d)] for _ in range(npts)]
   pairs = draw(st.lists(st.tuples(st.integers(0, npts - 1), st.integers(0, npts - 1)), min_size=1, max_size=12))
   return dict(model=m, pool=pool, integral=integral, pairs=[list(p) for p in pairs],
-              dtype=dtype)
+              dtype=dtype, near=draw(st.integers(0, 2)) == 0, nearexp=draw(st.integers(17, 45)))
 
 
 def check_c02(case, stats):
@@ -94,6 +94,16 @@ def check_c02(case, stats):
     stats.classes['nullspace-pair'] += 1
   else:
     n_orig = len(idx)
+  if case.get('near'):
+    # a pair of distinct points that agree to a relative 2^-nearexp in every coordinate (a copy that went
+    # through another precision, a re-measured sample): a small but non-zero distance
+    q = pool[0] * (1.0 + 2.0 ** -case['nearexp'])
+    if (q != pool[0]).any():
+      pool = np.vstack([pool, q])
+      idx = np.vstack([idx, [0, len(pool) - 1], [len(pool) - 1, 0]])
+      T = np.asarray(call('C02/transform/' + name, est.transform, pool))
+      bound_pts = 64 * EPS * smax * rt * safe_norm(pool, axis=1, keepdims=True) + 1e-150
+      stats.classes['near-duplicate-pair'] += 1
   formed = pool[idx]                       # (m, 2, d)
   pd = np.asarray(call('C02/pair_distance/' + name, est.pair_distance, formed))
   with recorded_warnings() as w:
@@ -140,6 +150,21 @@ def check_c02(case, stats):
       gint = float(call('C02/get_metric(%s)/%s' % (case['dtype'], name), metric, u.astype(case['dtype']), v.astype(case['dtype'])))
     else:
       gint = gm
+    # the metric function takes two separate arrays: mixed dtypes (float32 point against a float64 point,
+    # integer-dtype point against a float one) - reference on the values actually passed
+    mixed = [('float32-vs-float64', u.astype(np.float32), v)]
+    if case['integral'] and j < n_orig:
+      mixed.append(('%s-vs-float64' % case['dtype'], u.astype(case['dtype']), v + 0.25))
+    for mn, uu, vv in mixed:
+      u64 = np.asarray(uu, dtype=np.float64)
+      if not np.isfinite(u64).all():
+        continue
+      dm = u64 - np.asarray(vv, dtype=np.float64)
+      refm = float(np.sqrt(((Lq.dot(dm.astype(np.longdouble))) ** 2).sum()))
+      gmx = float(call('C02/get_metric(%s)/%s' % (mn, name), metric, uu, vv))
+      if not abs(gmx - refm) <= 64 * EPS * smax * rt * float(safe_norm(dm)) + 1e-150:
+        raise Violation('C02/view/get_metric-mixed-dtypes/%s/%s' % (mn.split('-')[0] if mn.startswith('float32') else 'int', name),
+                        '%s: %r vs reference %r' % (mn, gmx, refm))
     views = {'pair_distance': float(pd[j]), 'pair_distance-single': single, 'get_metric': gm,
              'get_metric-list-input': glist, 'get_metric-%s-input' % (case['dtype'] if case['integral'] else 'float'): gint}
     for vn, val in views.items():
